@@ -101,9 +101,27 @@ WS = [' ', '  ', '\n', '\t', ' \n ', '\r\n', '\r']
 
 
 class DocGen:
-    def __init__(self, rng):
+    def __init__(self, rng, probes=False):
         self.rng = rng
         self.knobs = set()
+        self.probes = probes
+        self.nprobes = 0
+
+    def probe(self, where):
+        """A ${...} probe (mixed layer only): everything around it is still unmarked."""
+        if not self.probes or self.rng.random() > 0.5:
+            return ''
+        self.nprobes += 1
+        self.knobs.add('probe-in-' + where)
+        return '${p%d}' % self.rng.randint(0, 3)
+
+    def sprinkle(self, pieces, where):
+        out = ''
+        for piece in pieces:
+            out += piece
+            if self.rng.random() < 0.3:
+                out += self.probe(where)
+        return out
 
     def ws(self):
         w = self.rng.choice(WS)
@@ -120,7 +138,9 @@ class DocGen:
     def aval(self):
         chars = ['v', ' ', '&amp;', '&#38;', '&bogus;', '&', '<', '>', 'é', '$', '{', '}', '=', '/', '\n',
                  '\r\n', '\t', '`', '#', '$ {', '}}']
-        return ''.join(self.rng.choice(chars) for _ in range(self.rng.randint(0, 5)))
+        if self.probes:
+            chars = chars + ['%', '%s', '%%', '%(a)s', '$a', '\\']
+        return self.sprinkle([self.rng.choice(chars) for _ in range(self.rng.randint(0, 5))], 'attribute')
 
     def attr(self, used):
         rng = self.rng
@@ -151,18 +171,20 @@ class DocGen:
     def text(self):
         chars = ['t', ' ', '\n', '\r\n', '\r', '&amp;', '&nbsp;', '&#160;', '&', 'é', '$', '{', '}', '"', "'",
                  '>', '=', '/', ']', '-', '?', '!', '\t', '日本', '$ {', '$a']
-        return ''.join(self.rng.choice(chars) for _ in range(self.rng.randint(1, 8)))
+        if self.probes:
+            chars = chars + ['%', '%s', '%%', '%(a)s', '$a', '\\']
+        return self.sprinkle([self.rng.choice(chars) for _ in range(self.rng.randint(1, 8))], 'text')
 
     def comment(self):
-        body = ''.join(self.rng.choice(['c', ' ', '-', '<', '>', '&', '\n', 'é', '$', '{', '[', '<p>'])
-                       for _ in range(self.rng.randint(0, 6)))
+        body = self.sprinkle([self.rng.choice(['c', ' ', '-', '<', '>', '&', '\n', 'é', '$', '{', '[', '<p>', '%', '$a', '%s'])
+                              for _ in range(self.rng.randint(0, 6))], 'comment')
         if '--' in body or body.endswith('-') or body.startswith(('!', '?', '>', '->', '-')):
             body = ' c '
         return '<!--' + body + '-->'
 
     def cdata(self):
-        body = ''.join(self.rng.choice(['c', ' ', '<', '>', '&', ']', '\n', 'é', '{', '<p a="b">'])
-                       for _ in range(self.rng.randint(0, 6)))
+        body = self.sprinkle([self.rng.choice(['c', ' ', '<', '>', '&', ']', '\n', 'é', '{', '<p a="b">', '%', '$a', '$', '%s'])
+                              for _ in range(self.rng.randint(0, 6))], 'cdata')
         if ']]' in body or body.endswith(']'):
             body = ' c<d '
         return '<![CDATA[' + body + ']]>'
@@ -359,6 +381,60 @@ def layer_soup(ctx, n):
                           {'kind': 'identity', 'src': s})
 
 
+PROBE_VALUES = {'p0': 'P0q', 'p1': '\u03a91\u03a9', 'p2': '22', 'p3': 'x%sy%'}
+PROBE = re.compile(r'\$\{(p[0-3])\}')
+
+
+def layer_mixed(ctx, n):
+    """Unmarked markup NEXT TO a ${...}: grammar documents with ${pN} probes sprinkled into text, quoted
+    attribute values, comments and CDATA.  Everything except the probes is unmarked and must come out byte
+    for byte (literal %, $name, backslashes, entities, quotes, ... in the same node as the interpolation)."""
+    from chameleon import PageTemplate
+    from chameleon.exc import TemplateError
+    rng = ctx.rng
+    done = tries = 0
+    while done < n and tries < 20 * n:
+        tries += 1
+        g = DocGen(rng, probes=True)
+        d, xml = g.doc()
+        if not g.nprobes:
+            continue
+        rest = PROBE.sub('\x00', d)
+        if active(rest) or '$$' in d or '$\x00' in rest:
+            continue
+        done += 1
+        for k in g.knobs:
+            ctx.cover('lexical-knobs', k)
+        exp = PROBE.sub(lambda m: PROBE_VALUES[m.group(1)], expected_identity(d))
+        try:
+            got = PageTemplate(d)(**PROBE_VALUES)
+        except TemplateError as e:
+            ctx.cover('rejected', type(e).__name__)
+            ctx.case(key=None, nontrivial=False)
+            continue
+        except Exception as e:
+            if slash_in_unquoted_value_explains(PROBE.sub('P', d)):
+                ctx.violation('identity-diff-in-document-with-slash-in-unquoted-attribute-value',
+                              'document %r raised %s' % (d[:200], type(e).__name__), {'kind': 'mixed', 'src': d})
+                continue
+            ctx.violation('mixed-crash-' + type(e).__name__,
+                          'rendering a document whose only marked parts are ${pN} probes raised %s: %s\n  source %r' % (
+                              type(e).__name__, str(e).split('\n')[0][:200], d[:300]), {'kind': 'mixed', 'src': d})
+            continue
+        ctx.mon('mixed-compared')
+        ctx.case(key=('mixed', token_kinds(rest), tuple(sorted(g.knobs))), nontrivial=True,
+                 sample={'source': d, 'rendered': got} if len(d) < 120 else None)
+        if got != exp:
+            kind, j = diff_kind(exp, got)
+            if slash_in_unquoted_value_explains(PROBE.sub('P', d)):
+                kind = 'document-with-slash-in-unquoted-attribute-value'
+                cls = 'identity-diff-in-' + kind
+            else:
+                cls = 'mixed-diff-in-' + kind
+            ctx.violation(cls, 'unmarked markup next to a ${...} probe is not reproduced: at offset %d expected %r, got %r\n  source %r'
+                          % (j, exp[max(0, j - 20):j + 20], got[max(0, j - 20):j + 20], d[:300]), {'kind': 'mixed', 'src': d})
+
+
 def layer_identity_files(ctx):
     """Statement-free sample files must render to themselves, too."""
     files = sorted(glob.glob(os.path.join(env.SRC, 'chameleon', 'tests', 'inputs', '*.pt')))
@@ -385,12 +461,14 @@ def run(ctx):
         layer_random(ctx, iter_xml, 2000)
         layer_identity(ctx, 700)
         layer_soup(ctx, 1500)
+        layer_mixed(ctx, 500)
     else:
         layer_exhaustive(ctx, iter_xml, ALPHA16, 6, '16x6')
         layer_exhaustive(ctx, iter_xml, ALPHA10, 7, '10x7')
         layer_random(ctx, iter_xml, 20000)
         layer_identity(ctx, 12000)
         layer_soup(ctx, 25000)
+        layer_mixed(ctx, 8000)
     layer_files(ctx, iter_xml)
     layer_identity_files(ctx)
 
@@ -408,8 +486,12 @@ def replay(data):
         from chameleon import PageTemplate
         src = data['src']
         exp = expected_identity(src)
+        kw = {}
+        if data.get('kind') == 'mixed':
+            exp = PROBE.sub(lambda m: PROBE_VALUES[m.group(1)], exp)
+            kw = PROBE_VALUES
         try:
-            got = PageTemplate(src)()
+            got = PageTemplate(src)(**kw)
         except Exception as e:
             got = '%s: %s' % (type(e).__name__, e)
         text = 'source   %r\nexpected %r\nrendered %r' % (src, exp, got)
